@@ -3,7 +3,7 @@ from common import Report, Rng, coq_check_props, harness_build, log
 import netlib as N
 import respgen as G
 
-ENDINGS = ["close", "garbage", "halfframe", "badarity", "nonutf8", "half", "abort", "unknown-long"]
+ENDINGS = ["close", "garbage", "halfframe", "badarity", "nonutf8", "half", "abort", "unknown-long", "garbage-hold", "unknown-hold"]
 
 
 def unknown_cmd(name):
@@ -21,6 +21,12 @@ def end_ops(cid, how):
         return ["send %s %s" % (cid, b"*3\r\n$3\r\nGET\r\n$1\r\na\r\n$1\r\nb\r\n".hex()), "recv %s eof 2000" % cid, "close %s" % cid]
     if how == "nonutf8":
         return ["send %s %s" % (cid, b"*2\r\n$3\r\nGET\r\n$2\r\n\xff\xfe\r\n".hex()), "recv %s eof 2000" % cid, "close %s" % cid]
+    if how == "garbage-hold":
+        # the server ends the connection (protocol error); the client sees the end of the stream but keeps its socket open:
+        # the slot must come back when the SERVER is done with the connection (seed C15-G shape)
+        return ["send %s %s" % (cid, b"\x00\x01garbage\r\n".hex()), "recv %s eof 2000" % cid]
+    if how == "unknown-hold":
+        return ["send %s %s" % (cid, unknown_cmd(b"FLUSHALL").hex()), "recv %s eof 2000" % cid]
     if how == "abort":
         return ["abort %s" % cid]
     if how.startswith("unknown-long"):
@@ -117,7 +123,8 @@ def special(tier):
 
 # ---- model-driven sessions: random client behaviour, the LTS under an eager scheduler says who is served and who waits
 WHY = {"close": "ByClientClose", "half": "ByClientClose", "abort": "ByClientClose", "garbage": "ByProtocolError", "badarity": "ByProtocolError",
-       "nonutf8": "ByProtocolError", "halfframe": "ByClientClose", "unknown-long": "ByProtocolError"}
+       "nonutf8": "ByProtocolError", "halfframe": "ByClientClose", "unknown-long": "ByProtocolError", "garbage-hold": "ByProtocolError",
+       "unknown-hold": "ByProtocolError"}
 PROBE_REPLY = b"$-1\r\n".hex()
 
 
